@@ -105,6 +105,9 @@ func main() {
 			props.KnownActive[k] = true
 		}
 	}
+	if v := os.Getenv("VERIF_SHELL_ORACLE"); v != "" {
+		fmt.Sscan(v, &props.ShellOracleMax)
+	}
 	if v := os.Getenv("VERIF_C19B_COUNTERS"); v != "" {
 		fmt.Sscan(v, &props.C19BCounters)
 	}
@@ -235,6 +238,11 @@ func batch(p *props.Property, runs int, seed uint64, out string) int {
 			rt.Fatalf("%s", o.Violation.Class)
 		})
 	}()
+	finishErr := error(nil)
+	if p.Finish != nil && lastFail == nil {
+		st.Frozen = false
+		finishErr = p.Finish(st)
+	}
 	sf := statsFile{Property: p.ID, Seed: seed, Runs: st.Counters["runs"], Counters: st.Counters, Distinct: len(st.Hashes),
 		DistinctNT: len(st.NTHashes), Samples: st.Samples, WallS: time.Since(start).Seconds(), KnownDetails: known,
 		Rule: p.Rule, Real: p.Real, Simulated: p.Simulated, Required: p.RequiredProbes}
@@ -250,6 +258,10 @@ func batch(p *props.Property, runs int, seed uint64, out string) int {
 		// rapid itself complained (flaky reproduction etc.): harness trouble.
 		sf.RapidLog = t.log
 		fmt.Fprintln(os.Stderr, "VERIF-HARNESS: rapid reported a failure without a violation:\n"+strings.Join(t.log, "\n"))
+		code = 2
+	}
+	if finishErr != nil && code == 0 {
+		fmt.Fprintln(os.Stderr, "VERIF-HARNESS:", finishErr)
 		code = 2
 	}
 	writeJSON(filepath.Join(out, "stats.json"), sf)
